@@ -11,8 +11,13 @@ J = 5
 if args and args[0] == "-j":
     J = int(args[1]); args = args[2:]
 dirs = sorted(d for d in glob.glob(os.path.join(V, "seeded", "*")) if os.path.exists(os.path.join(d, "patch.diff")))
+skip = set()
+if args and args[0] == "--resume":
+    skip = {l.split(" ")[0] for l in open(args[1]) if " detected " in l or " MISSED " in l}
+    args = args[2:]
 if args:
     dirs = [d for d in dirs if os.path.basename(d).split("-")[0] in args]
+dirs = [d for d in dirs if os.path.basename(d) not in skip]
 
 def one(d):
     name = os.path.basename(d)
